@@ -120,7 +120,11 @@ func cmdCheck(args []string) int {
 	exhaustive := true
 	nUnits := len(spec.Units)
 	for i, u := range spec.Units {
-		if *only != "" && !strings.Contains(u.Name(), *only) {
+		label := u.Name()
+		if l, ok := u.(interface{ Label() string }); ok {
+			label = l.Label()
+		}
+		if *only != "" && !strings.Contains(label, *only) {
 			continue
 		}
 		// split the remaining budget evenly over the remaining units
@@ -178,6 +182,9 @@ func cmdCheck(args []string) int {
 	seenKeys := map[string]bool{}
 	for _, f := range all {
 		if f.Property != prop && f.Property != "HARNESS" {
+			if os.Getenv("MC_DEBUG") != "" {
+				fmt.Printf("INFO other-property finding %s key=%s trace=%v\n     %s\n", f.Property, f.Key, f.Trace, firstLines(f.Msg, 6))
+			}
 			continue // other properties' monitors are judged by their own checks
 		}
 		k := f.Property + "|" + f.Key
